@@ -8,23 +8,25 @@ import Rscp.Gen.Leaves
 namespace Rscp.Tie.Reader
 
 /-- source of `rscp_readHeader` is unchanged -/
-theorem shape_rscp_readHeader : Rscp.Gen.Shape.rscp_readHeader = "815b35ee25fc6a8eac6c2624e5614c5b" := rfl
+theorem shape_rscp_readHeader : Rscp.Gen.Shape.rscp_readHeader = "34272ee25953c1f44341563818583e2b" := rfl
 /-- source of `rscp_truncatePadding` is unchanged -/
-theorem shape_rscp_truncatePadding : Rscp.Gen.Shape.rscp_truncatePadding = "a38cff138fbeda04567e899cee03063c" := rfl
+theorem shape_rscp_truncatePadding : Rscp.Gen.Shape.rscp_truncatePadding = "09c56ca0ecc9992a651b85e95d5ac930" := rfl
 /-- source of `rscp_read` is unchanged -/
-theorem shape_rscp_read : Rscp.Gen.Shape.rscp_read = "e097a74fb814a049ebf374ead43fea6b" := rfl
+theorem shape_rscp_read : Rscp.Gen.Shape.rscp_read = "42ed7a7727b7ca5489e85250f680725d" := rfl
 /-- source of `rscp_readMessage` is unchanged -/
-theorem shape_rscp_readMessage : Rscp.Gen.Shape.rscp_readMessage = "7416cad382e425fc1847daa7318b2bb5" := rfl
+theorem shape_rscp_readMessage : Rscp.Gen.Shape.rscp_readMessage = "53872c066ca6150ea91425d99c699d7a" := rfl
 /-- source of `rscp_Read` is unchanged -/
-theorem shape_rscp_Read : Rscp.Gen.Shape.rscp_Read = "98c84a9dd5aa2648bc5ba118ef2ae9dc" := rfl
+theorem shape_rscp_Read : Rscp.Gen.Shape.rscp_Read = "0d7f035768ca703abf75c70a850908aa" := rfl
 /-- source of `rscp_DataType_length` is unchanged -/
-theorem shape_rscp_DataType_length : Rscp.Gen.Shape.rscp_DataType_length = "255ffd13f6a735b6a90e61662336bcc6" := rfl
+theorem shape_rscp_DataType_length : Rscp.Gen.Shape.rscp_DataType_length = "e95e4ea52c548bbb6c125bd79826b973" := rfl
 /-- source of `rscp_DataType_newEmpty` is unchanged -/
-theorem shape_rscp_DataType_newEmpty : Rscp.Gen.Shape.rscp_DataType_newEmpty = "8ac13e848385a7d997cf4c18bbfb95ec" := rfl
+theorem shape_rscp_DataType_newEmpty : Rscp.Gen.Shape.rscp_DataType_newEmpty = "3c2f91aa8df3ed22a4afe344207e46af" := rfl
 /-- source of `rscp_DataType_IsADataType` is unchanged -/
-theorem shape_rscp_DataType_IsADataType : Rscp.Gen.Shape.rscp_DataType_IsADataType = "9027af7f816cb7df6542e7423ddd0962" := rfl
+theorem shape_rscp_DataType_IsADataType : Rscp.Gen.Shape.rscp_DataType_IsADataType = "0a309425ac445f3485bff5f6343eadf9" := rfl
 /-- source of `rscp_dereferencePtr` is unchanged -/
-theorem shape_rscp_dereferencePtr : Rscp.Gen.Shape.rscp_dereferencePtr = "b3c077c508d678a12ca89c9c0ab3b549" := rfl
+theorem shape_rscp_dereferencePtr : Rscp.Gen.Shape.rscp_dereferencePtr = "847bfdd6f0940554db61860ee0180dac" := rfl
+/-- source of `rscp_var_newEmptyMap` is unchanged -/
+theorem shape_rscp_var_newEmptyMap : Rscp.Gen.Shape.rscp_var_newEmptyMap = "d059d0ec1f24e287db3c677f0e5c6c39" := rfl
 /-- leaf `readHeader_badMagic`: source text and argument list are unchanged -/
 theorem leaf_readHeader_badMagic_src : Rscp.Gen.Leaf.readHeader_badMagic_src = "binary.LittleEndian.Uint16(data[RSCP_FRAME_MAGIC_POS:]) != RSCP_MAGIC" := rfl
 theorem leaf_readHeader_badMagic_args : Rscp.Gen.Leaf.readHeader_badMagic_args = ["binary.LittleEndian.Uint16(data[RSCP_FRAME_MAGIC_POS:])"] := rfl
